@@ -8,4 +8,6 @@ for p in C01 C02 C03 C04 C05 C06 C07 C08 C09 C10 C11 C12 C13 C14 C15 C16 C17 C18
   RC=$?
   echo "$p tier=$TIER $(( $(date +%s) - S ))s $(python3 -c "import json; e=json.load(open('evidence/$p.json')); print('evals', e['coverage']['evaluations'], 'nontrivial', e['coverage']['distinct_nontrivial'], 'violations', e['violations'])")"
   [ -n "$OUT" ] && echo "$OUT"
+  echo "$OUT" | grep -q VIOLATION && FAIL=1
 done
+exit ${FAIL:-0}
